@@ -264,3 +264,34 @@ func TrimStderr(s string) string {
 	}
 	return s
 }
+
+// ForEach runs fn(worker, i) for i in [0,n) on `workers` goroutines of this
+// process (for checks that do not touch process-global hooks).
+func ForEach(n, workers int, fn func(worker, i int)) {
+	if workers <= 0 {
+		workers = DefaultWorkers()
+	}
+	if workers > n {
+		workers = n
+	}
+	var mu sync.Mutex
+	next := 0
+	var wg sync.WaitGroup
+	for w := 0; w < workers; w++ {
+		wg.Add(1)
+		go func(w int) {
+			defer wg.Done()
+			for {
+				mu.Lock()
+				i := next
+				next++
+				mu.Unlock()
+				if i >= n {
+					return
+				}
+				fn(w, i)
+			}
+		}(w)
+	}
+	wg.Wait()
+}
